@@ -158,6 +158,12 @@ def plain(node):
         return plain(node.value)
     if node is None or isinstance(node, bool):
         return node if node is None else bool(node)
+    try:
+        from ruamel.yaml.scalarbool import ScalarBoolean
+        if isinstance(node, ScalarBoolean):
+            return bool(node)
+    except ImportError:
+        pass
     if isinstance(node, int):
         return int(node)
     if isinstance(node, float):
